@@ -247,7 +247,8 @@ def build_pattern(name):
 FIXTURES = ['[a, b, a]', 'a + a', 'a = a', 'f(a, b, c)', 'a < b < c', '[1, a]', '1 + a', 'b.c = b', '(1, b, 1)', '[a, a]',
             'b = b', 'if a:\n    b\n    c', '[b, a, c, d]', 'g(b, a)', 'a * b', '{a, b, a}']
 NODE_CLASSES = dict(ABORT_PATTERNS, **REENTRANT_PATTERNS)
-NODE_CLASSES.update({'or_backref_list': (ast.List,), 'or_backref_binop': (ast.BinOp,), 'or_backref_assign': (ast.Assign,),
+NODE_CLASSES.update({'selfast': (ast.stmt, ast.arguments, ast.Lambda, ast.Call, ast.BinOp, ast.Dict, ast.List, ast.Tuple, ast.Compare),
+                     'or_backref_list': (ast.List,), 'or_backref_binop': (ast.BinOp,), 'or_backref_assign': (ast.Assign,),
                      'opt_backref_tuple': (ast.List, ast.Tuple, ast.Set)})
 
 
@@ -333,7 +334,7 @@ class MatchRun:
                 parties.append({'kind': 'search', 'tree': rng.randrange(len(programs)),
                                 'pat': rng.choice(vocab),
                                 'nested': rng.random() < 0.8, 'on': rng.choice(['enter', 'enter', 'leave']),
-                                'back': rng.random() < 0.2, 'scope': rng.random() < 0.15})
+                                'back': rng.random() < 0.2, 'scope': rng.random() < 0.3})
                 if parties[-1]['scope']:
                     parties[-1]['on'] = 'enter'
             n_match = rng.choice([2, 4, 8])
@@ -341,6 +342,9 @@ class MatchRun:
                 parties.append({'kind': 'match', 'tree': rng.randrange(len(programs)),
                                 'pat': rng.choice(vocab),
                                 'node': rng.randrange(10 ** 6), 'on_ast': rng.random() < 0.2})
+            for i in range(rng.choice([0, 1, 2, 3])):  # 'any tree matches a pattern built from its own AST', at any point of the schedule
+                parties.append({'kind': 'match', 'tree': rng.randrange(len(programs)), 'pat': 'selfast',
+                                'node': rng.randrange(10 ** 6), 'on_ast': False})
             if rng.random() < 0.6:  # fault run: aborted / re-entrant matches, cancelled searches, leak-sensitive observers
                 for j in range(len(programs)):  # make sure there is something for the fault patterns to bite on
                     if rng.random() < 0.7:
@@ -377,6 +381,16 @@ class MatchRun:
                 nodes = [n for n in nodes if isinstance(n.a, classes)] or nodes
             return nodes[k % len(nodes)]
 
+        def selfast_pattern(tree, n, prog):
+            """'any tree matches a pattern built from its own AST': the pattern is the corresponding node of a FRESH pure
+            parse of the program (located by position in ast.walk order), never an object of the tree under test."""
+            live = list(ast.walk(tree.a))
+            pure = list(ast.walk(ast.parse(prog)))
+            try:
+                return pure[next(k for k, x in enumerate(live) if x is n.a)]
+            except (StopIteration, IndexError):
+                return ...
+
         def do_fault(tree, p, k=None):
             """An aborted (callback raises) or re-entrant (callback matches) match / search.  Returns its outcome."""
             n = node_of(tree, p['node'], p['pat'])
@@ -404,6 +418,9 @@ class MatchRun:
             tree = FST(programs[p['tree']], 'exec')
             if p['kind'] == 'fault':
                 return do_fault(tree, p)[0]
+            if p['pat'] == 'selfast':
+                n = node_of(tree, p['node'], p['pat'])
+                return render(tree, n.match(selfast_pattern(tree, n, programs[p['tree']])))
             pat = build_pattern(p['pat'])
             if p['kind'] == 'search':
                 out = []
@@ -489,8 +506,8 @@ class MatchRun:
                     else:
                         pending_matches.remove(i)
                         tree = trees[p['tree']]
-                        pat = pat_of(p)
                         n = node_of(tree, p['node'], p['pat'])
+                        pat = selfast_pattern(tree, n, programs[p['tree']]) if p['pat'] == 'selfast' else pat_of(p)
                         r = render(tree, pat.match(n.a) if p.get('on_ast') and hasattr(pat, 'match') else n.match(pat))
                         self.stats['match_calls'] += 1
                         if refs[i][0] != 'ok' or refs[i][1] != r:
